@@ -400,6 +400,9 @@ func main() {
 	if *testLocalGetter {
 		getter = testcases.TestGetter
 	}
+	if g := verifGetterOverride(); g != nil {
+		getter = g
+	}
 	sopts.Getter = &trust.RetryHTTPSGetter{
 		Timeout:       *timeout,
 		MaxRetryDelay: *maxRetryDelay,
